@@ -60,7 +60,7 @@ CFG = {
     "prop_file": "Properties/C17.v",
     "run_modules": ["Verif.C17.Run"],
     "coq_dirs": ["C17"],
-    "n": {"quick": 1200, "thorough": 150000},
+    "n": {"quick": 2400, "thorough": 150000},
     "shard": 150,
     "shrink": False,
     "max_report": 24,
@@ -68,16 +68,20 @@ CFG = {
     "rule": ("histories of 6..25 operations over 1-3 ArrayBuffers of 0..64 bytes supplied by Go inside canary-guarded slabs "
              "(plus buffers the engine allocates for slice results): typed-array constructors of all 11 kinds at aligned and "
              "misaligned offsets/lengths, DataView constructors, element get/set with in-range, negative, out-of-range, huge, "
-             "fractional and '-0' keys, set(array-like|typed array, offset) incl. overlapping same-buffer sources, copyWithin, "
-             "fill, slice, subarray, reverse, DataView get*/set* of every kind and endianness, ArrayBuffer.prototype.slice, "
-             "Go-side writes through the owner's []byte and Go-side Detach(), arguments whose valueOf detaches a buffer; "
-             "values from boundary classes (+-0, NaN, +-Inf, 2^31, 2^32+-1, 2^53, 2^63+-2^11, clamping ties, binary32 halfway "
-             "cases, BigInts beyond 64 bits). After every step: result (numbers as bit patterns), error class, canaries, "
-             "and a 32-bit hash of all buffer memory; at the end a 61-bit hash. Non-trivial = at least 5 executed steps or a detach; "
-             "distinct = by hash of the case. The bulk of the cases stays outside the input regions of the recorded findings; "
-             "those are covered by corpus/C17 and by up to 4 unconstrained ('wild') cases per run."),
-    "theorem_names": ["copyWithin_touched_refuted", "set_arraylike_touched_refuted", "int_conv_refuted",
-                      "bigint64_fill_refuted", "le_codec", "clamp_range", "clamp_spec", "raw_none_iff"],
+             "fractional and '-0' keys, set(array-like|typed array, offset) incl. overlapping same-buffer sources and views at "
+             "non-zero byteOffset, copyWithin, fill, slice, subarray (clamping), reverse, sort, DataView get*/set* of every kind "
+             "with littleEndian true/false/omitted, ArrayBuffer.prototype.slice, Go-side writes through the owner's []byte and "
+             "Go-side Detach(), arguments whose valueOf detaches a buffer; values from boundary classes (+-0, NaN, +-Inf, 2^31, "
+             "2^32+-1, 2^53, 2^63+-2^11, clamping ties, binary32 halfway cases, BigInts beyond 64 bits). After every step: result "
+             "(numbers as bit patterns), error class, canaries, the set of detached buffers and a 32-bit hash of all buffer memory; "
+             "at the end a 61-bit hash. A case fails if the implementation differs from S at any step, or if any range touched by the "
+             "model's own MI or S reading on that history is outside its view or on a detached buffer. Non-trivial = at least 5 "
+             "executed steps or a detach; distinct = by hash of the case. The bulk of the cases stays outside the input regions of the "
+             "two OPEN findings (C17-N8, C17-N9); those are covered by corpus/C17 and by up to 4 unconstrained ('wild') cases per run."),
+    "theorem_names": ["touched_in_view", "allowed_in_buffer", "inv_init", "inv_step", "touched_in_view_history",
+                      "bytes_eq_spec", "int_conv_eq", "fill_order_refuted", "nonindex_key_refuted",
+                      "raw_roundtrip", "raw_roundtrip_bits", "bits64_roundtrip", "bits32_roundtrip", "of_bits_wf",
+                      "le_codec", "clamp_range", "clamp_spec"],
     "allowed_axioms": [],
     "trusted_base": [
         "Coq 8.16.1 kernel + vm_compute (no native_compute); theorems closed under the global context (no axioms)",
@@ -87,7 +91,6 @@ CFG = {
         "ToIntegerOrInfinity represented with +-infinity saturated at the int64 limits",
     ],
     "assumptions": [
-        "amd64 semantics for Go's float64->int64 conversion of out-of-range values (-2^63)",
         "the bit pattern of a stored NaN (implementation-defined in ECMA-262) is pinned to goja's",
         "the implementation is tied to the model only on the generated histories (correspondence), not by proof",
     ],
@@ -96,19 +99,25 @@ CFG = {
         "C17.nonindex_numeric_key_type_check": p_n9,
     },
     "manifest": {
-        "text": ("proof (partial): a byte-list model of ArrayBuffers (with a detached flag), typed-array views of the 11 element kinds and "
-                 "DataViews in two readings (S = ECMA-262, I = goja's arithmetic) in which every operation returns the byte ranges it "
-                 "touched with the liveness of the buffer. Proved for all inputs: the little-endian byte codec decodes n bytes of z to "
-                 "z mod 2^(8n); ToUint8Clamp is within 0..255, nearest and ties-to-even (exact dyadic statement); type-mismatch rejection is "
-                 "consistent; and, by explicit witnesses, the regions where goja's arithmetic leaves the view or the live buffer "
-                 "(copyWithin count not clamped: F11; set(array) storing after a detach; int conversion beyond 2^63; BigInt64 fill). "
-                 "NOT yet proved (stated in the model as executable checks touch_ok/allowed and exercised on every generated history only): "
-                 "touched_in_view for all operations, I = S outside the refuted regions, the float part of the raw round trip. "
-                 "The model is tied to /repo on every run by 1200 (quick) / 150000 (thorough) generated histories executed on buffers "
-                 "living in canary-guarded Go slabs, compared with S evaluated by vm_compute."),
+        "text": ("proof: a byte-list model of ArrayBuffers (with a detached flag; a detached buffer keeps its bytes, they are the Go "
+                 "owner's memory), typed-array views of the 11 element kinds and DataViews, in two readings (S = ECMA-262, I = goja's "
+                 "arithmetic after the round-1 repairs); every one of 18 operations (constructors, element get/set, set(array|typed "
+                 "array), copyWithin, fill, slice, subarray, reverse, sort, DataView get/set, ArrayBuffer.slice, Go write, Go detach, "
+                 "length getters) returns the byte ranges it touched with the liveness of the buffer. Proved for all inputs, no axioms: "
+                 "touched_in_view (both readings: under the view invariant every touched range is on a live buffer and inside the view / "
+                 "DataView / receiver / freshly created buffer, for every argument incl. detaching valueOf), the invariant holds "
+                 "initially and is preserved by every operation (so the theorem applies along every history), bytes_eq_spec (I = S on "
+                 "state, result and touched ranges under an explicit guard that excludes the two open findings and set(typedArray) "
+                 "between different kinds on the same buffer), int_conv_eq (goja's integer conversions are modular for every float), "
+                 "raw_roundtrip (RawBytesToNumeric o NumericToRawBytes = ToType for all 11 kinds, both byte orders; floats through the "
+                 "proved to_bits/of_bits round trip on SpecFloat), clamp_spec (ToUint8Clamp in 0..255, nearest, ties to even). The model "
+                 "is tied to /repo on every run by 2400 (quick) / 150000 (thorough) generated histories executed on buffers living in "
+                 "canary-guarded Go slabs and compared with S evaluated by vm_compute; the touched ranges of the model's I reading are "
+                 "checked on every one of those histories as part of the verdict."),
         "note": ("trusted: Coq kernel + vm_compute; the hand transcription in coq/C17/Model.v; SpecFloat binary_normalize as the binary32 "
-                 "rounding; the Go harness (canaries checked in Go, bytes compared via hashes); amd64 float->int conversion; "
-                 "the implementation is covered by correspondence on generated histories, not by proof"),
-        "technique": "Rocq proof over an executable byte-level model (range safety, I = S refinement with refuted regions, codec round trip) + differential correspondence against /repo via vm_compute",
+                 "rounding (result format self-checked); the Go harness (canaries checked in Go, bytes compared via 32/61-bit hashes); "
+                 "the stored NaN bit pattern pinned to goja's; the implementation is covered by correspondence on generated histories, "
+                 "not by proof; sort with a comparator, species constructors and %TypedArray%.from/of/map are not modelled"),
+        "technique": "Rocq proof over an executable byte-level model (range safety by invariant, I = S refinement with explicit guard, codec round trip) + differential correspondence against /repo via vm_compute",
     },
 }
